@@ -171,6 +171,50 @@ func findInternalPanic(v *lisp.LVal) *lisp.LVal {
 	return nil
 }
 
+// findNilCell walks a result like findInternalPanic and reports the first
+// container that holds a Go-nil *LVal in a cell or as a map value: such a value
+// is not an ordinary value -- the next reader of it (the printer first of all)
+// dereferences nil -- so a call that hands one back has not "returned a value".
+func findNilCell(v *lisp.LVal) (holder *lisp.LVal, index int) {
+	if v == nil {
+		return nil, -1
+	}
+	seen := map[*lisp.LVal]struct{}{}
+	work := []*lisp.LVal{v}
+	budget := 2000000
+	for len(work) > 0 && budget > 0 {
+		budget--
+		x := work[len(work)-1]
+		work = work[:len(work)-1]
+		if _, ok := seen[x]; ok {
+			continue
+		}
+		seen[x] = struct{}{}
+		for i, c := range x.Cells {
+			if c == nil {
+				return x, i
+			}
+			work = append(work, c)
+		}
+		if x.Type == lisp.LSortMap {
+			if md, ok := x.Native.(*lisp.MapData); ok && md != nil {
+				func() {
+					defer func() { _ = recover() }()
+					buf := make([]*lisp.LVal, md.Len())
+					if r := md.Entries(buf); r != nil && r.Type != lisp.LError {
+						for _, e := range buf {
+							if e != nil {
+								work = append(work, e)
+							}
+						}
+					}
+				}()
+			}
+		}
+	}
+	return nil, -1
+}
+
 // errText renders a result for messages and class labels WITHOUT calling into
 // the interpreter's printer: the value may be cyclic or an exponentially
 // shared DAG, and rendering it is not part of what the property promises.
